@@ -1,7 +1,7 @@
 (* C06 — property theorems only. Meta-theory of the coroutine driver of the reference evaluator:
    for all states, stacks of resumers, continuations, arguments and fuel. *)
 From GL Require Import Common.Bytes Lua.Syntax Lua.Num Lua.Values Lua.Names Lua.Eval Lua.Run
-  Lua.MonadFacts Lua.EvalStepFacts Lua.DriveFacts.
+  Lua.MonadFacts Lua.EvalStepFacts Lua.DriveFacts Lua.EvalInvFacts Lua.DriveRunFacts.
 
 (* ---- status automaton: the invariant and its preservation by every driver transition ---- *)
 Theorem co_wf_initial : forall d body, co_wf (init_state d body) [].
@@ -72,6 +72,28 @@ Theorem status_automaton_never_stuck :
   ~ stuck (drive n conts stack r).
 Proof. exact drive_never_stuck_lemma. Qed.
 Print Assumptions status_automaton_never_stuck.
+
+(* ... and every computation of the evaluator IS guarded (induction over the whole evaluator), so
+   the statement holds outright: for every program, deviation setting and fuel *)
+Theorem evaluator_calls_guarded : forall m fr f args s, guarded s (call m fr f args s).
+Proof. exact call_guarded_lemma. Qed.
+Print Assumptions evaluator_calls_guarded.
+
+Theorem status_automaton : forall fuel d body, ~ stuck (run_program fuel d body).
+Proof. exact run_never_stuck_final_lemma. Qed.
+Print Assumptions status_automaton.
+
+Theorem status_automaton_any_configuration : forall n conts stack r s0,
+  co_wf s0 (whos stack) -> conts_ok s0 conts -> stack_ok stack -> guarded s0 r ->
+  ~ stuck (drive n conts stack r).
+Proof. exact drive_never_stuck_final_lemma. Qed.
+Print Assumptions status_automaton_any_configuration.
+
+(* between driver steps the evaluator never changes who is running and only appends coroutines *)
+Theorem evaluator_respects_co_frame : forall n cx ln en e s v s',
+  eval_e n cx ln en e s = Ret v s' -> co_frame s s'.
+Proof. exact eval_co_frame_lemma. Qed.
+Print Assumptions evaluator_respects_co_frame.
 
 (* ---- a dead, running or normal coroutine is never resumed: (false, msg), nothing changes ---- *)
 Theorem resume_dead_no_effect : forall n fr r rest s,
